@@ -25,6 +25,8 @@ __all__ = [
 LOGGER = srctools.logger.get_logger(__name__)
 # Hidden variable to track the number of recursions.
 RECUR_COUNT_ATTR = '_inst_recur_count'
+# Hidden variable holding the files of the enclosing instances, as far up as the nesting is fixed (no $variables).
+PARENTS_ATTR = '_inst_parents'
 # Prevent displaying errors for missing keyvalues multiple times.
 _UNKNOWN_KV: set[tuple[str, str]] = set()
 
@@ -45,6 +47,7 @@ class Instance:
     fixup_type: FixupStyle
     fixup: EntityFixup
     recur_count: int
+    parents: tuple[str, ...]
     outputs: list[Output]
 
     ent_ids: dict[int, int]
@@ -77,6 +80,7 @@ class Instance:
         self.visgroup_ids = {}
         # Keep track of recursive instances to handle loops.
         self.recur_count = 0
+        self.parents = ()
 
     @classmethod
     def from_entity(cls, ent: Entity) -> 'Instance':
@@ -101,6 +105,7 @@ class Instance:
             ent.fixup.copy_values(),
         )
         inst.recur_count = getattr(ent, RECUR_COUNT_ATTR, 0)
+        inst.parents = getattr(ent, PARENTS_ATTR, ())
         return inst
 
     def fixup_name(self, name: str) -> str:
@@ -466,6 +471,8 @@ def collapse_one(
         # Set a hidden attribute to keep track of recursive instancing.
         if classname.casefold() == 'func_instance':
             setattr(new_ent, RECUR_COUNT_ATTR, inst.recur_count + 1)
+            # A filename using $variables may differ each time, so the chain of parents restarts there.
+            setattr(new_ent, PARENTS_ATTR, inst.parents + (inst.filename,) if '$' not in new_ent['file'] else ())
 
         # Now keyvalues.
         # First extract a rotated angles value, handling the special "pitch" and "yaw" keys.
@@ -586,6 +593,10 @@ def collapse_all(
             return  # No more instances, success!
         for inst_ent in instances:
             inst = Instance.from_entity(inst_ent)
+            # This file contains itself through a chain of fixed filenames, so collapsing it produces the same
+            # instance again, forever. Fail now: with two such instances per file, each pass doubles the count.
+            if inst.filename in inst.parents:
+                raise RecursionError('Loop in instances!')
             inst_ent.remove()
             LOGGER.debug('Collapse {} @ {}', inst.filename, inst.pos)
             if not inst.name:
